@@ -179,7 +179,7 @@ func (f *Frame) callWith(in ssa.Instruction, c *ssa.CallCommon, fv Val, args []V
 		}
 	}
 	// call-site clauses of the enclosing contract (asserts before the call)
-	f.callSiteClauses(in, c, args, o, "asserts", ordName)
+	f.callSiteClauses(in, c, args, o, "asserts", ordName, nil)
 	var res Val
 	if key == "" && !c.IsInvoke() && fv.SubOf != "" {
 		// call of a function value stored in a struct field: "field:<pkg>.<Type>.<field>"
@@ -208,7 +208,7 @@ func (f *Frame) callWith(in ssa.Instruction, c *ssa.CallCommon, fv Val, args []V
 			res = f.unknownCall(key, c, args, o, resT)
 		}
 	}
-	f.callSiteClauses(in, c, args, o, "assumes", ordName)
+	f.callSiteClauses(in, c, args, o, "assumes", ordName, &res)
 	return res
 }
 
@@ -226,7 +226,7 @@ func (f *Frame) canInline(fn *ssa.Function) bool {
 	return true
 }
 
-func (f *Frame) callSiteClauses(in ssa.Instruction, c *ssa.CallCommon, args []Val, o *blockOut, kind string, ordName string) {
+func (f *Frame) callSiteClauses(in ssa.Instruction, c *ssa.CallCommon, args []Val, o *blockOut, kind string, ordName string, res *Val) {
 	if f.con == nil {
 		return
 	}
@@ -246,6 +246,18 @@ func (f *Frame) callSiteClauses(in ssa.Instruction, c *ssa.CallCommon, args []Va
 		env := f.specEnv(o.st, in.Block(), in)
 		for i, a := range args {
 			env.vars[fmt.Sprintf("arg%d", i)] = a
+		}
+		if res != nil {
+			// the call's results are visible to "assumes" clauses
+			switch {
+			case res.K == KTuple:
+				for i, r := range res.Fs {
+					env.vars[fmt.Sprintf("result%d", i)] = r
+				}
+			case res.K != KUnit:
+				env.vars["result"] = *res
+				env.vars["result0"] = *res
+			}
 		}
 		label := cl.Label
 		if label == "" {
@@ -510,6 +522,14 @@ func (e *SpecEnv) locations(m SExpr) []location {
 		return e.heapArrLocs(n.Path)
 	case SSel:
 		x := e.Eval(n.X)
+		if x.K != KPtr {
+			// a local struct variable that lives in memory: use its address
+			if id, ok := n.X.(SIdent); ok && e.f != nil {
+				if v, ok := e.f.lookupAddr(id.Name, e.at); ok && v.K == KPtr {
+					x = v
+				}
+			}
+		}
 		if x.K != KPtr {
 			e.fail("modifies: %s is not a pointer", specString(n.X))
 		}
@@ -915,11 +935,11 @@ func (f *Frame) appendOp(args []Val, o *blockOut, st0 types.Type) Val {
 			}
 			if l.sort == SInt && l.suffix == "" {
 				// ghost content set of the slice value (contents at the time of the last append)
-				cur := vc.sliceSet(s)
+				cur := vc.sliceSetOf(Select(A, s.T), s.Off, s.Len)
 				for k := int64(0); k < lv; k++ {
 					cur = Store(cur, Select(Select(A, e.T), Add(e.Off, IntLit(k))), True)
 				}
-				vc.assumeRaw(Eq(vc.sliceSet(res), cur))
+				vc.assumeRaw(Eq(vc.sliceSetOf(Select(A2, res.T), res.Off, res.Len), cur))
 			}
 		} else {
 			vc.assumeRaw(Term{fmt.Sprintf("(forall ((%s Int)) (=> (and (<= 0 %s) (< %s %s)) (= (select (select %s %s) (+ %s (+ %s %s))) (select (select %s %s) (+ %s %s)))))",
